@@ -21,6 +21,8 @@ bool / int / float (kept as its repr text, never as a float) / str literals.
 import ast
 import os
 
+OUTPUTS = ['MetaDefaults.lean']
+
 
 def _lean_chars(s):
     return '[' + ', '.join("'%s'" % ch if (ch.isalnum() or ch in '_ .-') and ord(ch) < 127 else 'Char.ofNat %d' % ord(ch)
